@@ -74,7 +74,7 @@ Qed.
 (* a collection with the same columns (same parameters), possibly other contents *)
 Definition same_schema (r s : coll) : Prop :=
   ∀ c, match cols r !! c, cols s !! c with
-       | Some a, Some b => cmerges a = cmerges b ∧ cmrg a = cmrg b ∧ czero a = czero b
+       | Some a, Some b => cmerges a = cmerges b ∧ cmrg a = cmrg b ∧ czero a = czero b ∧ ccast a = ccast b
        | None, None => True
        | _, _ => False end.
 
@@ -86,8 +86,8 @@ Definition restored_upto (r s : coll) (bs : list N) : Prop :=
 Lemma same_schema_commit_block r s t b : same_schema r s → same_schema (commit_block r t b) s.
 Proof.
   intros H c. specialize (H c). destruct (cols r !! c) as [a|] eqn:E.
-  - destruct (commit_block_cols r t b c a E) as (a' & -> & M1 & M2 & M3 & _).
-    destruct (cols s !! c); [|done]. by rewrite M1, M2, M3.
+  - destruct (commit_block_cols r t b c a E) as (a' & -> & M1 & M2 & M3 & M4 & _).
+    destruct (cols s !! c); [|done]. by rewrite M1, M2, M3, M4.
   - by rewrite (commit_block_cols_none r t b c E).
 Qed.
 
@@ -96,16 +96,17 @@ Proof. intros H Hc. specialize (H c). unfold read. rewrite Hc in H. by destruct 
 
 (* replaying one block of the snapshot on a collection that holds the blocks [bs] already *)
 Lemma restore_one_block r s bs b :
+  CastFixed s →
   b ∉ bs → restored_upto r s bs → restored_upto (replay r (snapshot_block s b)) s (b :: bs).
 Proof.
-  intros Hb (Hs & Hr & Hf). unfold replay. cbn [commit_blocks foldl rblk snapshot_block].
+  intros HF Hb (Hs & Hr & Hf). unfold replay. cbn [commit_blocks foldl rblk snapshot_block].
   fold (snap_txn s b). split; [by apply same_schema_commit_block|]. split.
   - intros c i. destruct (cols s !! c) as [col|] eqn:Hc.
     2:{ rewrite (read_same_schema_none _ s c i (same_schema_commit_block r s _ b Hs) Hc).
         unfold read. rewrite Hc. by destruct (decide _). }
     pose proof (Hs c) as Hsc. rewrite Hc in Hsc. destruct (cols r !! c) as [rc|] eqn:Hrc; [|done].
-    destruct Hsc as (M1 & M2 & M3).
-    destruct (commit_block_cols r (snap_txn s b) b c rc Hrc) as (rc' & Hrc' & _ & _ & _ & Hcells).
+    destruct Hsc as (M1 & M2 & M3 & M4).
+    destruct (commit_block_cols r (snap_txn s b) b c rc Hrc) as (rc' & Hrc' & _ & _ & _ & _ & Hcells).
     unfold read at 1. rewrite Hrc', Hcells.
     destruct (decide (blk i = b)) as [Eb|NEb].
     + rewrite decide_True by (rewrite Eb; by left).
@@ -115,6 +116,7 @@ Proof.
       rewrite Hold. unfold read. rewrite Hc.
       destruct (cells col !! i) as [v|] eqn:Ev.
       * rewrite decide_True by done. unfold cell_final, cstep, cell_step; cbn.
+        rewrite M4, (proj2 (HF c col Hc) i v Ev).
         destruct (decide (i ∈ fill s ∧ blk i = b)); done.
       * unfold cell_final, cstep, cell_step; cbn. destruct (decide (i ∈ fill s ∧ blk i = b)); done.
     + specialize (Hr c i). unfold read in Hr at 1. rewrite Hrc in Hr. rewrite Hr.
@@ -149,16 +151,17 @@ Proof.
 Qed.
 
 Lemma restore_blocks r s bs dn :
+  CastFixed s →
   NoDup (bs ++ dn) → restored_upto r s dn →
   restored_upto (foldl replay r (snapshot_block s <$> bs)) s (rev bs ++ dn).
 Proof.
-  revert r dn. induction bs as [|b bs IH]; intros r dn ND H; [exact H|].
+  intro HF. revert r dn. induction bs as [|b bs IH]; intros r dn ND H; [exact H|].
   cbn [fmap list_fmap foldl rev]. cbn in ND. apply NoDup_cons in ND as [Hb ND].
   rewrite <- app_assoc. cbn [app]. apply IH.
   - apply NoDup_app in ND as (N1 & N2 & N3). apply NoDup_app. split; [exact N1|]. split.
     + intros x Hx [->|Hx2]%elem_of_cons; [apply Hb, elem_of_app; by left|by eapply N2].
     + apply NoDup_cons. split; [|exact N3]. intro Hd. apply Hb, elem_of_app. by right.
-  - apply restore_one_block; [|exact H]. intro Hd. apply Hb, elem_of_app. by right.
+  - apply restore_one_block; [exact HF| |exact H]. intro Hd. apply Hb, elem_of_app. by right.
 Qed.
 
 Lemma blk_mono i j : i <= j → blk i <= blk j.
@@ -194,18 +197,18 @@ Qed.
    reproduces every cell of every column at every offset, and the fill list (hence Count and the
    behaviour of later inserts: no restored row can be handed out again) *)
 Theorem restore_snapshot s :
-  CellsLive s →
+  CellsLive s → CastFixed s →
   let r := restore (fresh_of s) (snapshot s) in
   (∀ c i, read r c i = read s c i) ∧ fill r = fill s ∧ same_schema r s.
 Proof.
-  intros Live r. unfold r, restore, snapshot.
+  intros Live HF r. unfold r, restore, snapshot.
   set (bs := (λ b : nat, N.of_nat b) <$> seq 0 (N.to_nat (nblocks s))).
   assert (Hmap : ((λ b : nat, snapshot_block s (N.of_nat b)) <$> seq 0 (N.to_nat (nblocks s))) = snapshot_block s <$> bs).
   { unfold bs. by rewrite <- list_fmap_compose. }
   rewrite Hmap.
   assert (ND : NoDup (bs ++ [])).
   { rewrite app_nil_r. unfold bs. apply NoDup_fmap_2; [intros x y; lia|apply NoDup_seq]. }
-  destruct (restore_blocks (fresh_of s) s bs [] ND (restored_fresh s)) as (Hs & Hr & Hf).
+  destruct (restore_blocks (fresh_of s) s bs [] HF ND (restored_fresh s)) as (Hs & Hr & Hf).
   rewrite app_nil_r in Hr, Hf.
   assert (Hin : ∀ i, i ∈ fill s → blk i ∈ rev bs).
   { intros i Hi. apply elem_of_list_In. apply -> in_rev. apply elem_of_list_In. unfold bs. apply elem_of_list_fmap. exists (N.to_nat (blk i)).
@@ -219,15 +222,19 @@ Qed.
 (* restored indexes and sorted indexes are exact because they are maintained by commits (C03,
    C16) and the restored cells equal the original ones *)
 Corollary restore_index_membership s e rule bits e' bits' col col' :
-  CellsLive s → IdxOK s → IdxOK (restore (fresh_of s) (snapshot s)) →
-  e ∈ comps s → xstate e = XIndex rule bits → cols s !! xtarget e = Some col →
+  CellsLive s → CastFixed s → IdxOK s → IdxOK (restore (fresh_of s) (snapshot s)) →
+  e ∈ comps s → xstate e = XIndex rule bits → cols s !! xtarget e = Some col → cast_invariant col rule →
   e' ∈ comps (restore (fresh_of s) (snapshot s)) → xstate e' = XIndex rule bits' → xtarget e' = xtarget e →
   cols (restore (fresh_of s) (snapshot s)) !! xtarget e' = Some col' →
   bits' = bits.
 Proof.
-  intros Live I1 I2 He Hx Hc He' Hx' Ht Hc'. apply set_eq. intro i.
-  rewrite (I1 e rule bits col He Hx Hc i), (I2 e' rule bits' col' He' Hx' Hc' i).
-  destruct (restore_snapshot s Live) as (Hr & _ & _). specialize (Hr (xtarget e) i).
+  intros Live HF I1 I2 He Hx Hc Hci He' Hx' Ht Hc'. apply set_eq. intro i.
+  destruct (restore_snapshot s Live HF) as (Hr & _ & Hsch).
+  assert (Hci' : cast_invariant col' rule).
+  { specialize (Hsch (xtarget e)). rewrite <- Ht, Hc', Ht, Hc in Hsch. destruct Hsch as (_ & _ & _ & Hk).
+    intros j v. rewrite Hk. apply Hci. }
+  rewrite (I1 e rule bits col He Hx Hc Hci i), (I2 e' rule bits' col' He' Hx' Hc' Hci' i).
+  specialize (Hr (xtarget e) i).
   unfold read in Hr. rewrite <- Ht, Hc', Ht, Hc in Hr. by rewrite Hr.
 Qed.
 
